@@ -286,6 +286,13 @@ fn exercise_program(name: &str, spec: &ProgSpec, rng: &mut Rng, enumerate_cap: u
             plans.push((WritePlan::one(i, WAct::Hard), Teardown::FlushChecked));
             plans.push((WritePlan::one(i, WAct::Zero), Teardown::FlushChecked));
             plans.push((WritePlan::one(i, WAct::Short(1)), Teardown::DropOnly));
+            // a one-off error (EAGAIN on a non-blocking pipe, a timeout, a passing EIO): report it, or resume — never resend
+            plans.push((WritePlan::one(i, WAct::Once((i % 3) as u8)), Teardown::FlushChecked));
+        }
+        // ... and in the middle of a request that is being accepted piecewise: part of it is already on the other side
+        for &i in positions.iter().step_by(3) {
+            plans.push((WritePlan { at: vec![(i, WAct::Short(1)), (i + 1, WAct::Once(0))], ..Default::default() }, Teardown::FlushChecked));
+            plans.push((WritePlan { limit: Some(*rng.pick(&[1usize, 3, 64, 1024])), at: vec![(i * 2 + 1, WAct::Once((i % 3) as u8))], ..Default::default() }, Teardown::FlushChecked));
         }
         plans.push((WritePlan { flush_fail: Some(0), ..Default::default() }, Teardown::FlushChecked));
         // seeded part
